@@ -757,6 +757,35 @@ def m_iter_fold(interp, args, info):
     return acc
 
 
+@model("std::iter::Iterator::try_fold")
+def m_iter_try_fold(interp, args, info):
+    """try_fold over an iterator passed by &mut; the closure returns Option<B> or Result<B, E>"""
+    c, path = interp.deref(args[0])
+    it = interp.read(c, path)
+    it = it if isinstance(it, IterV) else make_iter(interp, it)
+    acc = args[1]
+    targs = info.get("targs", [])
+    rty = interp.prog.ty_str(targs[-1]) if targs else ""
+    is_opt = rty.startswith("std::option::Option")
+    is_res = rty.startswith("std::result::Result")
+    if not (is_opt or is_res):
+        raise Inconclusive("try_fold with residual type %s" % rty, interp.where())
+    while True:
+        x, it = iter_next(interp, it)
+        interp.write(c, path, it)
+        if not is_some(x):
+            return some(acc) if is_opt else ok(acc)
+        r = interp.call_value(args[2], [acc, x.fields[0]])
+        if is_opt:
+            if not is_some(r):
+                return NONE
+            acc = r.fields[0]
+        else:
+            if not _is_ok(r):
+                return r
+            acc = r.fields[0]
+
+
 @model("std::iter::Iterator::any")
 def m_iter_any(interp, args, info):
     c, path = interp.deref(args[0])
